@@ -114,7 +114,7 @@ def typeItems (reg : Registry) (path : Path) (size align : Nat) (vis : Vis) (td 
   let conv := hier.flatMap fun (fp, ty) =>
     let n := (hier.filter fun e => rtyStr e.2 == rtyStr ty).length
     if n > 1 then
-      [mk "conflict" [.str ("_CONFLICTING_" ++ upper name ++ "_" ++ "_".intercalate (fp.map upper))]]
+      [mk "conflict" [.str ("_CONFLICTING_" ++ upper (unraw name) ++ "_" ++ "_".intercalate (fp.map fun s => upper (unraw s)))]]
     else
       [mk "asref" [.str name, .str (rtyStr ty), mk "fp" (fp.map .str)],
        mk "asmut" [.str name, .str (rtyStr ty), mk "fp" (fp.map .str)]]
